@@ -28,6 +28,11 @@ type c02Rule struct {
 	Action  string `json:"action"` // pass deny drop redirect
 	Status  int    `json:"status,omitempty"`
 	CtlMode string `json:"ctl_mode,omitempty"`
+	// Pre is an earlier disruptive action of the same rule (only the LAST
+	// disruptive action of a rule counts); PreFirst puts it at the very start
+	// of the action list
+	Pre      string `json:"pre,omitempty"`
+	PreFirst bool   `json:"pre_first,omitempty"`
 }
 
 type c02Call struct {
@@ -44,12 +49,26 @@ type c02Scenario struct {
 	Canonical bool      `json:"canonical"`
 	SmallLim  int       `json:"small_limit,omitempty"`
 	Reject    bool      `json:"reject,omitempty"`
+	// BrokenBody: the request announces multipart/form-data but the body is not
+	// multipart, so the body processor fails (REQBODY_ERROR) in phase 2
+	BrokenBody bool `json:"broken_body,omitempty"`
 }
 
 const c02Redirect = "http://example.com/blocked"
 
 func (r *c02Rule) text() string {
 	acts := []string{fmt.Sprintf("id:%d", r.ID), fmt.Sprintf("phase:%d", r.Phase)}
+	if r.Pre != "" {
+		pre := r.Pre
+		if pre == "redirect" {
+			pre = "redirect:http://example.com/early"
+		}
+		if r.PreFirst {
+			acts = append([]string{pre}, acts...)
+		} else {
+			acts = append(acts, pre)
+		}
+	}
 	switch r.Action {
 	case "redirect":
 		acts = append(acts, "redirect:"+c02Redirect)
@@ -77,6 +96,8 @@ func (r *c02Rule) text() string {
 		return fmt.Sprintf("SecRule RESPONSE_HEADERS:%s \"@streq yes\" \"%s\"", r.Tok, a)
 	case "rbody":
 		return fmt.Sprintf("SecRule RESPONSE_BODY \"@contains %s\" \"%s\"", r.Tok, a)
+	case "rberr":
+		return fmt.Sprintf("SecRule REQBODY_ERROR \"@eq 1\" \"%s\"", a)
 	}
 	return fmt.Sprintf("SecAction \"%s\"", a)
 }
@@ -112,7 +133,10 @@ func c02Gen(t *verifrt.Tape) *c02Scenario {
 	ctlUsed := false
 	for i := 0; i < n; i++ {
 		r := c02Rule{ID: 101 + i, Phase: 1 + t.Draw(5)}
-		r.Kind = pick(t, []string{"uri", "uri", "hdr", "hdr", "body", "status", "rhdr", "rbody", "always"})
+		r.Kind = pick(t, []string{"uri", "uri", "hdr", "hdr", "body", "status", "rhdr", "rbody", "always", "rberr"})
+		if r.Kind == "rberr" && r.Phase < 2 {
+			r.Phase = 2
+		}
 		if sc.SmallLim > 0 && (r.Kind == "body" || r.Kind == "rbody") {
 			// the visible body would be a truncated prefix; C10 covers that
 			r.Kind = "uri"
@@ -139,6 +163,10 @@ func c02Gen(t *verifrt.Tape) *c02Scenario {
 				r.Status = []int{403, 401, 500, 429}[t.Draw(4)]
 			}
 		}
+		if t.Draw(6) == 0 {
+			r.Pre = pick(t, []string{"deny", "drop", "redirect", "pass"})
+			r.PreFirst = t.Draw(2) == 0
+		}
 		if !ctlUsed && t.Draw(12) == 0 {
 			r.CtlMode = pick(t, []string{"On", "DetectionOnly", "Off"})
 			r.Action, r.Status = "pass", 0
@@ -156,7 +184,12 @@ func c02Gen(t *verifrt.Tape) *c02Scenario {
 		}
 	}
 	calls = append(calls, c02Call{Op: "uri", V: uri})
-	calls = append(calls, c02Call{Op: "reqhdr", K: "Content-Type", V: "application/x-www-form-urlencoded"})
+	sc.BrokenBody = sc.SmallLim == 0 && t.Draw(5) == 0
+	if sc.BrokenBody {
+		calls = append(calls, c02Call{Op: "reqhdr", K: "Content-Type", V: "multipart/form-data; boundary=zzzz"})
+	} else {
+		calls = append(calls, c02Call{Op: "reqhdr", K: "Content-Type", V: "application/x-www-form-urlencoded"})
+	}
 	for _, k := range []string{"X-K1", "X-K2"} {
 		if t.Draw(3) == 0 {
 			calls = append(calls, c02Call{Op: "reqhdr", K: k, V: "yes"})
@@ -230,6 +263,7 @@ type c02Model struct {
 	ran          [6]bool
 	ctlSeen      bool
 	limitTouched bool
+	reqBodyErr   bool
 }
 
 func (m *c02Model) visible(r *c02Rule) bool {
@@ -246,6 +280,8 @@ func (m *c02Model) visible(r *c02Rule) bool {
 		return m.respHdr[r.Tok]
 	case "rbody":
 		return strings.Contains(m.respBodyVar, r.Tok)
+	case "rberr":
+		return m.reqBodyErr
 	}
 	return true
 }
@@ -434,7 +470,10 @@ func c02Run(w *verifrt.World, tier Tier) *RunResult {
 			case 1:
 				m.forceVar = true
 			case 2:
-				if m.reqBuf != "" && (m.ctDelivered || m.forceVar) {
+				switch {
+				case m.reqBuf != "" && m.ctDelivered && sc.BrokenBody:
+					m.reqBodyErr = true // the multipart processor fails; REQUEST_BODY stays empty
+				case m.reqBuf != "" && (m.ctDelivered || m.forceVar):
 					m.reqBodyVar = m.reqBuf
 				}
 			case 3:
